@@ -230,22 +230,29 @@ func runC06(c *run.Ctx) {
 		}
 	}
 	all := append(append([]built{}, named...), subs...)
-	k1 := 2
-	if !c.Quick() {
-		k1 = 3
-	}
-	Seqs(c, fragText, 0, k1, func(in []byte, _ []int) { eval(all, in) })
+	Seqs(c, fragText, 0, 2, func(in []byte, _ []int) { eval(all, in) })
 	if c.Quick() {
 		Seqs(c, fragText, 3, 3, func(in []byte, _ []int) { eval(named, in) })
 	} else {
-		Seqs(c, fragText, 4, 4, func(in []byte, _ []int) { eval(named[:min(8, len(named))], in) })
+		// thorough: k=3 on named + every <=2-subset policy, k=4 over the first 30 text fragments on eight named policies
+		var small []built
+		small = append(small, named...)
+		for _, s := range subsetSpecs(2) {
+			b := build(s)
+			if inC06Class(b.V) {
+				small = append(small, b)
+			}
+		}
+		Seqs(c, fragText, 3, 3, func(in []byte, _ []int) { eval(small, in) })
+		Seqs(c, fragText[:30], 4, 4, func(in []byte, _ []int) { eval(named[:min(8, len(named))], in) })
 	}
 	Seqs(c, fragAll(), 3, 3, func(in []byte, _ []int) { eval(named[:min(6, len(named))], in) })
 	nb := 5
+	bsp := pick(named, "bpbr", "bpbr-spaces", "ugc")
 	if !c.Quick() {
 		nb = 6
+		bsp = pick(named, "bpbr-spaces")
 	}
-	bsp := pick(named, "bpbr", "bpbr-spaces", "ugc")
 	BytesS(c, "bytes", byteAlpha, 1, nb, func(in []byte) { eval(bsp, in) })
 	if c.Shard == 0 {
 		c.Notes["policies_in_class"] = float64(len(all))
